@@ -536,11 +536,48 @@ func init() {
 							}
 						}
 					}
-					if !okInner || foundVar == nil {
+					// the same search written with an "any" combinator: h(used, func(u) bool { return u.<sf> == item })
+					isAnyCall := func(e ast.Expr) bool {
+						call, ok := ast.Unparen(e).(*ast.CallExpr)
+						if !ok || len(call.Args) != 2 || fi.varOf(call.Args[0]) != usedParam {
+							return false
+						}
+						lit, ok := ast.Unparen(call.Args[1]).(*ast.FuncLit)
+						if !ok || len(lit.Type.Params.List) != 1 || len(lit.Type.Params.List[0].Names) != 1 || len(lit.Body.List) != 1 {
+							return false
+						}
+						u, _ := fi.Info.Defs[lit.Type.Params.List[0].Names[0]].(*types.Var)
+						ret, ok := lit.Body.List[0].(*ast.ReturnStmt)
+						if !ok || len(ret.Results) != 1 || u == nil {
+							return false
+						}
+						be, ok := ast.Unparen(ret.Results[0]).(*ast.BinaryExpr)
+						if !ok || be.Op != token.EQL {
+							return false
+						}
+						l, rr := be.X, be.Y
+						if fi.varOf(l) == item {
+							l, rr = rr, l
+						}
+						sl, ok := ast.Unparen(l).(*ast.SelectorExpr)
+						if !ok || fi.selField(l) != sf || fi.varOf(sl.X) != u || fi.varOf(rr) != item {
+							return false
+						}
+						return isAnyCombinator(c.FnOf(fi.callee(call)))
+					}
+					combinator := false
+					for _, s := range outer.Body.List {
+						if is, ok := s.(*ast.IfStmt); ok {
+							if cs := flatten(is.Cond, false, is); len(cs) == 1 && isAnyCall(cs[0].Expr) {
+								combinator = true
+							}
+						}
+					}
+					if (!okInner || foundVar == nil) && !combinator {
 						return true
 					}
 					// found starts false each iteration
-					fresh := false
+					fresh := combinator
 					for _, d := range fi.defs[foundVar] {
 						if d.kind == "define" && fi.within(d.node, outer.Body) {
 							if id, ok := ast.Unparen(d.rhs).(*ast.Ident); ok && id.Name == "false" {
@@ -595,7 +632,7 @@ func init() {
 							continue
 						}
 						cs := flatten(is.Cond, false, is)
-						if len(cs) != 1 || fi.varOf(cs[0].Expr) != foundVar {
+						if len(cs) != 1 || !(foundVar != nil && fi.varOf(cs[0].Expr) == foundVar || isAnyCall(cs[0].Expr)) {
 							continue
 						}
 						if cs[0].Neg {
@@ -825,4 +862,44 @@ func (fi *FuncInfo) topLevelStmt(n ast.Node) ast.Stmt {
 		}
 	}
 	return nil
+}
+
+// isAnyCombinator recognises func h(xs []T, pred func(T) bool) bool
+// { for _, x := range xs { if pred(x) { return true } }; return false }.
+func isAnyCombinator(h *FuncInfo) bool {
+	if h == nil || h.Decl.Body == nil || len(h.Decl.Body.List) != 2 {
+		return false
+	}
+	var ps []*types.Var
+	for _, f := range h.Decl.Type.Params.List {
+		for _, nm := range f.Names {
+			if v, ok := h.Info.Defs[nm].(*types.Var); ok {
+				ps = append(ps, v)
+			}
+		}
+	}
+	if len(ps) != 2 {
+		return false
+	}
+	rs, ok := h.Decl.Body.List[0].(*ast.RangeStmt)
+	if !ok || h.varOf(rs.X) != ps[0] || rs.Value == nil || len(rs.Body.List) != 1 {
+		return false
+	}
+	is, ok := rs.Body.List[0].(*ast.IfStmt)
+	if !ok || is.Else != nil || is.Init != nil || len(is.Body.List) != 1 {
+		return false
+	}
+	call, ok := ast.Unparen(is.Cond).(*ast.CallExpr)
+	if !ok || h.varOf(call.Fun) != ps[1] || len(call.Args) != 1 || h.varOf(call.Args[0]) != h.varOf(rs.Value) {
+		return false
+	}
+	isConst := func(st ast.Stmt, want string) bool {
+		r, ok := st.(*ast.ReturnStmt)
+		if !ok || len(r.Results) != 1 {
+			return false
+		}
+		id, ok := ast.Unparen(r.Results[0]).(*ast.Ident)
+		return ok && id.Name == want
+	}
+	return isConst(is.Body.List[0], "true") && isConst(h.Decl.Body.List[1], "false")
 }
